@@ -133,6 +133,8 @@ def _case(draw):
         # the supplied array defines the horizontal grid; it need not be the configured nx x ny
         dny, dnx = draw(st.sampled_from([(0, 0), (0, 0), (1, 2), (-1, 0), (2, -1)]))
         case["flux"] = draw(gen.source(max(2, ny + dny), max(2, nx + dnx), kinds=("dense", "sparse")))
+        # an emission map as it comes out of a single-precision file: both routes must treat it the same way
+        case["flux_dtype"] = draw(st.sampled_from(["float64", "float64", "float64", "float32"]))
     return case
 
 
@@ -176,7 +178,9 @@ def check_case(case):
     out = Outcome()
     raw, ti, i = case["raw"], case["tower"], case["step"]
     d, sol, m = raw["domain"], raw["solver"], raw["met"]
-    flux = None if case["flux"] is None else np.asarray(case["flux"], float)
+    flux = None if case["flux"] is None else np.asarray(case["flux"], float).astype(case.get("flux_dtype", "float64"))
+    if flux is not None and flux.dtype == np.float32:
+        out.label("flux=float32")
     nt = len(m["wind_speed"]) if isinstance(m["wind_speed"], list) else 1
     out.label("closure=" + sol["closure"], "footprint" if sol.get("footprint") else "dispersion",
               "analytic" if sol.get("analytic") else "numerical", ("z0-and-ustar-given" if "ustar" in m else "z0-forcing") if "z0" in m else "ustar-forcing",
